@@ -131,9 +131,9 @@ class Magnitude:
         if left.error is None and right.error is None:
             error = None
         elif left.error is None and right.error is not None:
-            error = right.error * left.value
+            error = right.error * np.abs(left.value)
         elif left.error is not None and right.error is None:
-            error = left.error * right.value
+            error = left.error * np.abs(right.value)
         else:
             maxerror = np.abs((left.value+left.error)*(right.value+right.error) - value)
             minerror = np.abs((left.value-left.error)*(right.value-right.error) - value)
@@ -162,7 +162,7 @@ class Magnitude:
             minerror = np.abs(left.value / (right.value-right.error) - value)
             error = np.max([maxerror,minerror])
         elif left.error is not None and right.error is None:
-            error = left.error / right.value
+            error = left.error / np.abs(right.value)
         else:
             maxerror = np.abs((left.value+left.error)/(right.value-right.error) - value)
             minerror = np.abs((left.value-left.error)/(right.value+right.error) - value)
@@ -182,7 +182,7 @@ class Magnitude:
     def __pow__(self, power: Union[float,int]):
         value = self.value**power
         if self.error is not None:
-            error = self._rel_to_abs(self._abs_to_rel()*power)
+            error = np.abs(self._rel_to_abs(self._abs_to_rel()*power))
         else:
             error = None
         return Magnitude(value, error)
